@@ -21,7 +21,7 @@ PROPS = {
     "C08": dict(runs=runs([("core", D), ("block", D)]), determining=True),
     "C09": dict(runs=runs([("chunk", D), ("chunk", R)]), determining=True),
     "C10": dict(runs=runs([("core", D), ("block", D)]), determining=True),
-    "C11": dict(runs=runs([("core", D), ("chunk", D)], [("core", D), ("block", D), ("chunk", D)])),
+    "C11": dict(runs=runs([], [])),   # two-pass witness pipeline, see special_c11
     "C12": dict(runs=runs([("scan", D), ("swar", D), ("classes", D)], [("scan", D), ("scan", R), ("swar", D), ("classes", D)]), determining=True,
                 trusted=["lane semantics of the x86 intrinsics (validated against the real instructions by the scan family)",
                          "lane semantics of the NEON intrinsics and tools/neon2lean.py (not executable here)"]),
@@ -50,8 +50,63 @@ C13_VARIANTS = {
 }
 
 
+def special_c11(tier, seed, th, chk):
+    """two passes: (1) every generated case on the real code; for each Partial result the MODEL picks a
+    completion witness from the finite completion set (driver witness); (2) the real code must
+    complete on buffer ++ witness (or one of the two stated exceptions applies)."""
+    import subprocess, os, time, glob, json
+    from concurrent.futures import ThreadPoolExecutor
+    cdir = os.path.join(chk.BUILD, "cache", th, "c11-%s-%s" % (tier, seed))
+    res_path = os.path.join(cdir, "result.json")
+    with chk.Lock("c11-" + tier):
+        if os.path.exists(res_path):
+            r = json.load(open(res_path)); r["cached"] = True
+            return [r]
+        t0 = time.time()
+        os.makedirs(cdir, exist_ok=True)
+        binp, err = chk.build_harness("dev")
+        if binp is None:
+            return [{"family": "witness", "variant": "dev", "build_failed": True, "log": err, "fails": [], "stats": {}, "samples": {}, "n": 0, "wall": 0}]
+        fams = ["core", "chunk"] + (["block"] if tier == "thorough" else ["block"])
+        allc = os.path.join(cdir, "all.cases")
+        with open(allc, "w") as f:
+            for fam in fams:
+                subprocess.run([binp, "gen", fam, tier, str(seed)], stdout=f, env=chk.ENV, check=True)
+        chk.sh("sort -u -o %s %s" % (allc, allc), check=True)
+        n1 = sum(1 for _ in open(allc))
+        for f in glob.glob(os.path.join(cdir, "p1.*")):
+            os.remove(f)
+        chk.sh(["split", "-n", "l/%d" % chk.NPROC, "-d", allc, os.path.join(cdir, "p1.")])
+        def work(s):
+            obs = s + ".obs"
+            chk.run_shard(binp, s, obs, 900)
+            with open(s + ".wit", "w") as o:
+                p1 = subprocess.Popen(["grep", " => P"], stdin=open(obs), stdout=subprocess.PIPE)
+                subprocess.run([chk.DRIVER, "witness"], stdin=p1.stdout, stdout=o, env=chk.ENV)
+                p1.wait()
+            os.remove(obs); os.remove(s)
+            return s + ".wit"
+        with ThreadPoolExecutor(max_workers=chk.NPROC) as ex:
+            wits = list(ex.map(work, sorted(glob.glob(os.path.join(cdir, "p1.[0-9]*")))))
+        witc = os.path.join(cdir, "wit.cases")
+        chk.sh("cat %s | sort -u > %s" % (" ".join(wits), witc), check=True)
+        for w in wits:
+            os.remove(w)
+        os.remove(allc)
+        n2 = sum(1 for _ in open(witc))
+        fails, stats, samples = chk.run_cases(binp, witc, cdir)
+        os.remove(witc)
+        stats["cases.pass1"] = n1
+        r = {"family": "witness(core+block+chunk)", "variant": "dev", "tier": tier, "seed": seed, "n": n2, "fails": fails[:2000], "nfails": len(fails),
+             "stats": stats, "samples": samples, "wall": time.time() - t0, "cached": False}
+        json.dump(r, open(res_path, "w"))
+        return [r]
+
+
 def special(prop, tier, seed, th, chk):
     import subprocess, json, os, time
+    if prop == "C11":
+        return special_c11(tier, seed, th, chk)
     if prop != "C13":
         return None
     out = []
